@@ -40,7 +40,7 @@ ASSUMPTIONS = E1_ASSUMPTIONS + [
     "bracket comment or doccomment (which leaves it unterminated)",
     "an unterminated bracket *argument* is not one of the families the statement names: such cases are discarded",
     "the fault-free configuration (same worlds, no corruption) must exit 0 and write the page"]
-PROBES = ["stale_page_newer_than_source", "settings_profile_used", "module_without_any_doccomment", "read_error_on_input", "family_unterminated-string", "family_unterminated-bracket-comment", "family_invalid-escape",
+PROBES = ["healthy_input_after_faulty", "stale_page_newer_than_source", "settings_profile_used", "module_without_any_doccomment", "read_error_on_input", "family_unterminated-string", "family_unterminated-bracket-comment", "family_invalid-escape",
           "family_unbalanced-paren", "family_stray-text", "mode_o", "mode_stdout", "in_tree", "stale_page_present",
           "pair", "fault_between_commands", "fault_inside_arguments", "rest_of_file_swallowed_candidate"]
 
@@ -85,6 +85,7 @@ def strategy(cfg):
                 "setting": {"mode": mode, "in_tree": in_tree, "stale": mode == "o" and draw(st.booleans()),
                             # clock skew: the (faulty) source carries an old timestamp, the stale page looks newer
                             "skew": draw(st.booleans()),
+                            "healthy_input_after": draw(st.integers(0, 3)) == 0,
                             "undoc": (None if not profile else
                                       ([False] * 10 if profile == "undoc_off" else [draw(st.booleans()) for _ in range(10)]))},
                 "siblings": siblings,
@@ -215,6 +216,11 @@ def evaluate(spec, ctx):
         page = os.path.join(base, "w/out", "bad.rst")
         target = "proj" if setting["in_tree"] else "proj/" + name
         argv = (["-o", "out"] if mode == "o" else []) + [target]
+        if setting.get("healthy_input_after"):
+            # another, healthy input follows on the same command line
+            core.materialise(base, {"w/other/zz_healthy.cmake": "function(zqhealthy a)\nendfunction()\n"})
+            argv = argv + ["other/zz_healthy.cmake"]
+            ctx.probes["healthy_input_after_faulty"] += 1
         if setting.get("undoc"):
             import yaml
             keys = ["function", "macro", "cpp_class", "cpp_attr", "cpp_constructor", "cpp_member", "ct_add_test",
@@ -319,7 +325,8 @@ def evaluate(spec, ctx):
                     with open(page) as f:
                         now = f.read()
                 expect = good_page if setting["stale"] else None
-                if wrote or now != expect:
+                # "writes no reST for that file": the stale page stays as it was, or is removed - never (re)written
+                if wrote or now not in (expect, None):
                     viols.append(dict(viol("page-written-for-invalid-input",
                                            f"{family} via {kinds}: status {res.status}; page "
                                            f"{'opened for writing' if wrote else 'changed'}", family=family), narrow=narrow))
